@@ -46,6 +46,28 @@ theorem read_step_refines (opts : List SOpt) (hok : OptsOk opts) {argv : List Bu
        cont opts st.skipOpt pending rest = r :: cont opts st'.skipOpt pending' rest') :=
   read_step opts hok h
 
+/-! sanity of the specification itself -/
+
+/-- words that do not begin with `-` are returned in order as non-options -/
+theorem getopt_plain_words (opts : List SOpt) (ws : List Word) (h : ∀ w ∈ ws, w.head? ≠ some 45) :
+    getopt opts ws = ws.map (fun w => (0, w)) := by
+  unfold getopt
+  induction ws with
+  | nil => simp [parse]
+  | cons w ws ih =>
+    have hw := h w (by simp)
+    have ih' := ih (fun x hx => h x (by simp [hx]))
+    cases w with
+    | nil => simp [parse, ih']
+    | cons c cs =>
+      have hc : c ≠ 45 := by simpa using hw
+      rw [parse_nonopt opts c cs ws hc, ih']; simp
+
+/-- everything behind `--` is a non-option -/
+theorem getopt_terminator (opts : List SOpt) (ws : List Word) :
+    getopt opts ([45, 45] :: ws) = ws.map (fun w => (0, w)) := by
+  simp [getopt, parse]
+
 /-- the table of the correspondence run: a/alpha flag, b flag without long name, o/out required value, p/opt optional value -/
 def exTable : List SOpt :=
   [⟨97, some [97, 108, 112, 104, 97], 0⟩, ⟨98, none, 0⟩, ⟨111, some [111, 117, 116], 1⟩, ⟨112, some [111, 112, 116], 3⟩]
@@ -71,11 +93,15 @@ theorem split_spec (line junk : List Nat) (h : ∀ c ∈ line, c ≠ 0) :
     splitCommandLine (line ++ 0 :: junk) = .done (tokenize line) :=
   splitCommandLine_spec line junk h
 
-/-- ... in particular the loops end (never `.fuel`: the obligation the unrepaired code, D34, violates
-    for `"a\b"`) and never read outside the buffer (never `.fault`) -/
-theorem split_terminates (line junk : List Nat) (h : ∀ c ∈ line, c ≠ 0) :
-    splitCommandLine (line ++ 0 :: junk) ≠ .fuel ∧ splitCommandLine (line ++ 0 :: junk) ≠ .fault := by
-  rw [split_spec line junk h]; exact ⟨by simp, by simp⟩
+/-- the loops of splitCommandLine end on EVERY buffer, well-formed or not (never `.fuel`): the
+    obligation the unrepaired code (D34) violates for `"a\b"` -/
+theorem split_terminates (s : Buf) : splitCommandLine s ≠ .fuel :=
+  splitCommandLine_ends s
+
+/-- ... and on a terminated buffer they never read outside it -/
+theorem split_no_oob (line junk : List Nat) (h : ∀ c ∈ line, c ≠ 0) :
+    splitCommandLine (line ++ 0 :: junk) ≠ .fault := by
+  rw [split_spec line junk h]; simp
 
 /-- the documented quoting rules are usable: a list of words written as double-quoted segments with
     `"` escaped as `\"`, separated by single blanks, is read back as exactly these words -- for all
